@@ -168,7 +168,9 @@ pub fn run(cx: &mut Cx) {
     let crash_families = ["block-inversion-super", "include-descendant-super", "deep-template-built-value", "deep-template-built-map", "self-component-recursion", "mutual-component-recursion", "component-recursion-through-body"];
     let n_crash = crash_families.len() as u64;
     let n_matrix = (EXPRS.len() + STMTS.len()) as u64;
-    let total = n_ref + n_depth + n_crash + n_matrix + cx.total(2000, 250_000);
+    // (F) references that exist when first registered and vanish when their provider is replaced
+    let n_repl = (POSITIONS.len() + 3) as u64;
+    let total = n_ref + n_depth + n_crash + n_matrix + n_repl + cx.total(2000, 250_000);
     let dump = cx.dump;
     for case in cx.my_cases(total) {
         let mut rng = cx.rng(case);
@@ -410,6 +412,71 @@ pub fn run(cx: &mut Cx) {
                 }
             }
             cx.count("matrix_shapes_completed", 1);
+            continue;
+        }
+        // ---- (F) a valid set, then the provider of a reference is replaced by a version that no longer provides it:
+        //      the replacement must be rejected; whatever the answer, rendering afterwards must not panic
+        if case < n_ref + n_depth + n_crash + n_matrix + n_repl {
+            let k = (case - n_ref - n_depth - n_crash - n_matrix) as usize;
+            let (pname, first, replacement): (String, Vec<(String, String)>, (String, String)) = if k < POSITIONS.len() {
+                let (pn, pos) = POSITIONS[k];
+                let user = pos.replace('R', "<Prov a={1} />");
+                (
+                    format!("component-provider-replaced:{pn}"),
+                    vec![("prov.html".into(), "{% component Prov(a = 1) %}prov{{ a }}{% endcomponent %}".into()), ("known.html".into(), KNOWN.1.into()), ("t.html".into(), user)],
+                    ("prov.html".into(), "nothing provided any more".into()),
+                )
+            } else {
+                match k - POSITIONS.len() {
+                    0 => (
+                        "parent-replaced-without-the-overridden-block".into(),
+                        vec![("base.html".into(), "{% block b %}base{% endblock %}".into()), ("t.html".into(), "{% extends \"base.html\" %}{% block b %}child {{ super() }}{% endblock %}".into())],
+                        ("base.html".into(), "no block here".into()),
+                    ),
+                    1 => (
+                        "component-provider-replaced:called-from-another-component".into(),
+                        vec![("prov.html".into(), "{% component Prov() %}prov{% endcomponent %}".into()), ("mid.html".into(), "{% component Mid() %}[{{ <Prov /> }}]{% endcomponent %}".into()), ("t.html".into(), "{{ <Mid /> }}".into())],
+                        ("prov.html".into(), "gone".into()),
+                    ),
+                    _ => (
+                        "component-provider-replaced:called-from-included".into(),
+                        vec![("prov.html".into(), "{% component Prov() %}prov{% endcomponent %}".into()), ("inc.html".into(), "<{{ <Prov /> }}>".into()), ("t.html".into(), "{% include \"inc.html\" %}".into())],
+                        ("prov.html".into(), "gone".into()),
+                    ),
+                }
+            };
+            cx.begin_case(case, &format!("replacement:{}", clip(&pname, 50)));
+            let replay = json!({"scenario": pname, "first_batch": first, "replacement": replacement});
+            cx.eval();
+            let r = guard(|| {
+                let mut t = Tera::default();
+                let first_ok = t.add_raw_templates(first.clone()).is_ok();
+                let second_ok = first_ok && t.add_raw_template(&replacement.0, &replacement.1).is_ok();
+                (t, first_ok, second_ok)
+            });
+            cx.cell(format!("replacement|{pname}"));
+            cx.count("provider_replacements", 1);
+            match r {
+                Err(p) => cx.violation(&format!("C07/panic/{}", panic_site(&p)), format!("{pname}: registration panicked: {p}"), replay),
+                Ok((_, false, _)) => cx.violation("C07/replacement-scenario-first-batch-rejected", format!("{pname}: the valid first batch was rejected"), replay),
+                Ok((t, true, second_ok)) => {
+                    if second_ok {
+                        cx.violation(&format!("C07/dangling-reference-accepted-after-replacement/{}", pname.split(':').next().unwrap_or("x")), format!("{pname}: replacing the provider by a version without the referenced name was accepted"), replay.clone());
+                    }
+                    // accepted or rolled back, every template must still render to text or an error
+                    let ctx = Context::new();
+                    let names: Vec<String> = t.get_template_names().map(|s| s.to_string()).collect();
+                    for n in names {
+                        let what = format!("{pname}: render {n}");
+                        render_checked(cx, &t, &what, &|w| {
+                            let mut buf = Vec::new();
+                            let r = t.render_to(&n, &ctx, &mut buf);
+                            w.extend_from_slice(&buf);
+                            r
+                        }, &|| replay.clone());
+                    }
+                }
+            }
             continue;
         }
         // ---- (A) generated programs against hostile contexts
